@@ -19,9 +19,24 @@ const tokPkg = "github.com/polydawn/refmt/tok"
 // tokenConsumer describes a function that interprets refmt tokens held in a
 // *tok.Token (parameter or local) and drives a NodeAssembler.
 type tokenConsumer struct {
-	fn    *ssa.Function
-	tok   ssa.Value // the *tok.Token (Parameter or Alloc)
-	steps []*ssa.Call
+	fn     *ssa.Function
+	tok    ssa.Value // the *tok.Token (Parameter or Alloc)
+	steps  []*ssa.Call
+	others map[*ssa.Function]bool // functions that belong to another consumer (analysed there, not as helpers of this one)
+}
+
+// calls lists the call instructions of the consumer and of the helpers expanded into it, leaving out what belongs to
+// another consumer (the recursive decoder function is a consumer of its own even when the entry point that steps the
+// first token calls it).
+func (tc *tokenConsumer) calls() []ssa.CallInstruction {
+	var out []ssa.CallInstruction
+	for _, ci := range core.CallsR(tc.fn) {
+		if g := ci.Parent(); g != tc.fn && tc.others[g] {
+			continue
+		}
+		out = append(out, ci)
+	}
+	return out
 }
 
 func isTokenPtr(t types.Type) bool {
@@ -72,13 +87,49 @@ func findTokenConsumers(p *core.Program, rel string) []*tokenConsumer {
 	for _, tc := range out {
 		absorbed := false
 		for _, other := range out {
-			if other != tc && core.RegionOf(other.fn).Has(tc.fn) {
+			// the recursive decoder function itself is never "a helper of its caller", whoever steps the first token
+			if other != tc && core.RegionOf(other.fn).Has(tc.fn) && !selfRecursive(tc.fn) {
 				absorbed = true
 			}
 		}
 		if !absorbed {
 			roots = append(roots, tc)
 		}
+	}
+	for _, tc := range roots {
+		tc.others = map[*ssa.Function]bool{}
+		for _, other := range roots {
+			if other == tc {
+				continue
+			}
+			for _, g := range core.RegionOf(other.fn).Fns {
+				if g != tc.fn {
+					tc.others[g] = true
+				}
+			}
+		}
+		// what only this consumer expands stays its own
+		for _, g := range core.RegionOf(tc.fn).Fns {
+			owned := true
+			for _, other := range roots {
+				if other != tc && (g == other.fn || (core.RegionOf(other.fn).Has(g) && !core.RegionOf(tc.fn).Has(other.fn))) {
+					owned = false
+				}
+				if other != tc && core.RegionOf(tc.fn).Has(other.fn) && core.RegionOf(other.fn).Has(g) {
+					owned = false
+				}
+			}
+			if owned {
+				delete(tc.others, g)
+			}
+		}
+		var steps []*ssa.Call
+		for _, st := range tc.steps {
+			if g := st.Parent(); g == tc.fn || !tc.others[g] {
+				steps = append(steps, st)
+			}
+		}
+		tc.steps = steps
 	}
 	return roots
 }
@@ -325,4 +376,28 @@ func enumSwitchesTypeSwitchDefaults(p *core.Program, rel, fnName string) []bool 
 		}
 	}
 	return out
+}
+
+// selfRecursive: fn can reach itself through static calls inside its package.
+func selfRecursive(fn *ssa.Function) bool {
+	seen := map[*ssa.Function]bool{}
+	work := []*ssa.Function{fn}
+	for len(work) > 0 {
+		f := work[len(work)-1]
+		work = work[:len(work)-1]
+		for _, ci := range core.Calls(f) {
+			g := ci.Common().StaticCallee()
+			if g == nil || len(g.Blocks) == 0 || core.FuncPkg(g) != core.FuncPkg(fn) {
+				continue
+			}
+			if g == fn {
+				return true
+			}
+			if !seen[g] {
+				seen[g] = true
+				work = append(work, g)
+			}
+		}
+	}
+	return false
 }
